@@ -88,11 +88,13 @@ func ruleColumnsParsed(c *Ctx, rule string) {
 	c.Funcs[funcName(fn)] = true
 	key := funcName(fn) + "/comment-column-on-every-path"
 	var store *ssa.Store
-	for _, b := range fn.Blocks {
-		for _, ins := range b.Instrs {
-			if st, ok := ins.(*ssa.Store); ok {
-				if name, ok := fieldOf(st.Addr, pkg, "Feature"); ok && name == "Comments" {
-					store = st
+	for _, g := range privateReach(fn) {
+		for _, b := range g.Blocks {
+			for _, ins := range b.Instrs {
+				if st, ok := ins.(*ssa.Store); ok {
+					if name, ok := fieldOf(st.Addr, pkg, "Feature"); ok && name == "Comments" {
+						store = st
+					}
 				}
 			}
 		}
@@ -101,6 +103,9 @@ func ruleColumnsParsed(c *Ctx, rule string) {
 		c.und(rule, key, fn.Pos(), "no store to Comments")
 		return
 	}
+	// the feature line may be parsed in a helper of the package: the paths are those of the function that
+	// builds the feature
+	fn = store.Parent()
 	// the vector of columns: the slice whose length guards the store
 	var bad *ssa.Return
 	for _, r := range returnsOf(fn) {
